@@ -178,6 +178,11 @@ func (e *KnowledgeBase) MakeCatalog() *Catalog {
 		MemoryExpressionAtomVariableMap: nil,
 	}
 	for _, v := range e.RuleEntries {
+		if v.Deleted {
+			// the binary format has no field for the Deleted flag: a removed rule is not stored at all,
+			// otherwise it would come back to life (under its Deleted_* name) after loading.
+			continue
+		}
 		v.MakeCatalog(catalog)
 	}
 	e.WorkingMemory.MakeCatalog(catalog)
